@@ -246,7 +246,7 @@ def _exc_num(text):
     return int(m.group(1)) if m else 0
 
 
-def run_dispatch_seq(rp, seq):
+def run_dispatch_seq(rp, seq, base_env=()):
     """several requests in a row in ONE process (as in a persistent rank); returns per request what
     was reported and what the environment / stdio looked like afterwards"""
     w = make_worker(rp, 2, 0)
@@ -259,6 +259,9 @@ def run_dispatch_seq(rp, seq):
     out0, err0 = io.StringIO(), io.StringIO()
     sys.stdout, sys.stderr = out0, err0
     res = []
+    # (base_env: variables the worker process has before any request - a request that removes one of them must not leave
+    #  it removed)
+    for k, v in base_env: os.environ['C20K%d' % k] = 'v%d' % v
     try:
         for i, (mode, pl, tenv) in enumerate(seq):
             PAYLOADS[i] = payload_fn(pl)
@@ -827,8 +830,9 @@ def run(ctx):
         seq = [(m, pl, te) if not (m == 'task.function' and rng.random() < 0.3) else
                (m, gen_unresolved(rng), [[rng.randint(1, 4), rng.randint(1, 9)] for _ in range(rng.choice([1, 1, 2]))])
                for m, pl, te in seq]
-        res = run_dispatch_seq(rp, seq)
-        proc = {'env': [], 'cenv': [], 'real': True}
+        base = [[1, 5], [3, 7]] if i % 2 else []
+        res = run_dispatch_seq(rp, seq, base)
+        proc = {'env': [list(x) for x in base], 'cenv': [list(x) for x in base], 'real': True}
         for (mode, pl, tenv), r in zip(seq, res):
             if restore_c is None: restore_c = r['real']      # the repaired code keeps the real os.environ object
             dops.append({'op': 'dispatch', 'restore_c': restore_c, 'proc': proc, 'task_env': tenv, 'payload': pl})
@@ -837,17 +841,17 @@ def run(ctx):
             ctx.case(dops[-1], nontrivial=bool(pl['edits'] or pl['out'] or pl['raises']))
             ok = pl['raises'] is None
             if (r['ret'] == 0) != ok:
-                ctx.fail('dispatch:exit-code-does-not-tell-success', 'ret %s, payload %s' % (r['ret'], 'returned' if ok else 'raised'), {'kind': 'dispatch', 'seq': seq})
+                ctx.fail('dispatch:exit-code-does-not-tell-success', 'ret %s, payload %s' % (r['ret'], 'returned' if ok else 'raised'), {'kind': 'dispatch', 'seq': seq, 'base': base})
             if ok and r['val'] != pl['returns']:
-                ctx.fail('dispatch:return-value-lost', '%r vs %r' % (r['val'], pl['returns']), {'kind': 'dispatch', 'seq': seq})
+                ctx.fail('dispatch:return-value-lost', '%r vs %r' % (r['val'], pl['returns']), {'kind': 'dispatch', 'seq': seq, 'base': base})
             if not ok and r['exc'] != pl['raises']:
-                ctx.fail('dispatch:exception-not-reported', '%r' % r['exc'], {'kind': 'dispatch', 'seq': seq})
+                ctx.fail('dispatch:exception-not-reported', '%r' % r['exc'], {'kind': 'dispatch', 'seq': seq, 'base': base})
             if not pl['rebinds'] and (r['out'] != pl['out'] or [x for x in r['err'] if x] != pl['err']):
-                ctx.fail('dispatch:captured-output-differs', '%s %s' % (r['out'], r['err']), {'kind': 'dispatch', 'seq': seq})
+                ctx.fail('dispatch:captured-output-differs', '%s %s' % (r['out'], r['err']), {'kind': 'dispatch', 'seq': seq, 'base': base})
             if r['env'] != proc['env'] or not r['stdio_restored']:
-                ctx.fail('dispatch:environment-or-stdio-not-restored', 'os.environ afterwards %s, before %s; stdio restored: %s' % (r['env'], proc['env'], r['stdio_restored']), {'kind': 'dispatch', 'seq': seq})
+                ctx.fail('dispatch:environment-or-stdio-not-restored', 'os.environ afterwards %s, before %s; stdio restored: %s' % (r['env'], proc['env'], r['stdio_restored']), {'kind': 'dispatch', 'seq': seq, 'base': base})
             if r['cenv'] != proc['cenv']:
-                ctx.fail('dispatch:process-environment-not-restored', 'children of the next request inherit %s (before the request: %s)' % (r['cenv'], proc['cenv']), {'kind': 'dispatch', 'seq': seq})
+                ctx.fail('dispatch:process-environment-not-restored', 'children of the next request inherit %s (before the request: %s)' % (r['cenv'], proc['cenv']), {'kind': 'dispatch', 'seq': seq, 'base': base})
             proc = {'env': r['env'], 'cenv': r['cenv'], 'real': r['real']}
     common.compare(ctx, 'raptor', dops, dimpl, canon=lambda x: {k: (sorted(v) if k in ('env', 'cenv') else v) for k, v in x.items()} if isinstance(x, dict) else x,
                    what='real Worker._dispatch_func/_eval/_exec, several requests in one process')
@@ -972,8 +976,9 @@ def replay(ctx, data):
         bad = start_monitor(obs, nans); print(obs, bad); return not bad
     if i['kind'] == 'dispatch':
         seq = [tuple(x) for x in i['seq']]
-        res = run_dispatch_seq(rp, seq)
-        proc = {'env': [], 'cenv': []}
+        base = i.get('base', [])
+        res = run_dispatch_seq(rp, seq, base)
+        proc = {'env': [list(x) for x in base], 'cenv': [list(x) for x in base]}
         ok = True
         for (mode, pl, tenv), r in zip(seq, res):
             print(r)
